@@ -108,9 +108,9 @@ CHECKS = {
         "CalcDeltaS applies its exact inverse to the target; bonded/three-body outputs are normalised to unit integral; the IMC block is "
         "-(<SiSj>-<Si><Sj>^T) mirrored by transpose; every accumulator updated while merging is reset by ClearAverages; block output "
         "writes before clearing; per-frame histograms are cleared before filling; values go to the nearest bin centre."
-        + 'Also: every per-block accumulator update of MergeWorker (frame count, average volume, means, correlations) precedes the block output and its ClearAverages. ',
+        + 'Also: every per-block accumulator update of MergeWorker (frame count, average volume, means, correlations) precedes the block output and its ClearAverages; the pair-count factor is 1/(N1 N2) for two bead types and 2/(N1 N2) for one. ',
    note="Identities of formulas in the current source. Not decided: agreement with an independent recomputation on data, the pair "
-        "search (C03), bin memory safety (C13), the norm_ factors set in BeginEvaluate (2/(N1N2) vs 1/(N1N2))."),
+        "search (C03), bin memory safety (C13)."),
  "C06": dict(cat="other", ref="DESIGN.md section 4 C06",
    technique="symbolic folding of csg_imc_solve into a non-commutative matrix term (-V diag(d) V^T A^T b with V, d from the eigen-decomposition of A^T A) with the diagonal decided element-wise for representatives of |lambda+reg| against the tolerance; canonical-form comparison of all csg_fmatch row/index expressions, call-sequence checks at block boundaries, structural check of the constrained QR solve, cubic-spline row identities shared with C12",
    text="Decides the shape of the stated problems: csg_imc_solve forms A^T A, inverts its spectrum shifted by the regularisation "
